@@ -2154,12 +2154,12 @@ class Exec:
             h = self.unit.abstract.get('call:' + f.target.split(':')[1])
             if h is not None:        # assumed (abstract) contract of an out-of-reach function, stated by the unit
                 return h(self, st, args, kwargs, node)
+            short = f.target.split(':')[1]
+            if f.target in self.unit.inline or short in self.unit.inline:      # the unit asks for the callee's real body
+                mi2, fn2, _ = source.find_function(_resolve_alias(f.target))
+                return self._inline(fn2, {}, mi2, None, args, kwargs, st, node)
             u = self.registry.get(f.target) or self.registry.get(_resolve_alias(f.target))
             if u is None:
-                short = f.target.split(':')[1]
-                if f.target in self.unit.inline or short in self.unit.inline:
-                    mi2, fn2, _ = source.find_function(_resolve_alias(f.target))
-                    return self._inline(fn2, {}, mi2, None, args, kwargs, st, node)
                 # no contract stated for this callee: its real body is executed in place (strongest postcondition through
                 # the callee), so that moving code into a helper neither hides it from the proof nor blocks the proof
                 stack = self.__dict__.setdefault('_auto_inl', [])
@@ -2292,7 +2292,9 @@ class Exec:
             raise Unsupported('inlined callee %s has %d outcomes' % (fndef.name, len(outs)))
         s, k, p = outs[0]
         if s is not st:
-            raise Unsupported('inlined callee forked')
+            # the callee branched and exactly one branch is feasible: the caller's state continues as that branch
+            st.heap, st.pc, st.ver, st.views, st.trace, st.tags = s.heap, s.pc, s.ver, s.views, s.trace, s.tags
+            st.consumer_envs = s.consumer_envs
         if k == 'raise':
             raise _Raise(st, p)
         return p
